@@ -11,7 +11,7 @@
      stored e0        what the repository still holds of e0's trees is what was written (trees may be missing)
    chunks, tid, the store and the index are universally quantified. *)
 From Verif.Base Require Import Tactics.
-From Verif.C11 Require Import Extracted Model Proofs Spec Proofs2 Proofs3 ModelIter ProofsIter ProofsPipe ModelSelect ProofsSelect Examples.
+From Verif.C11 Require Import Extracted Model Proofs Spec Proofs2 Proofs3 ModelIter ProofsIter ProofsPipe ProofsBracket ModelSelect ProofsSelect Examples.
 Local Open Scope N_scope.
 
 (* Core: for ANY parent state — any number of trees, any cursor positions, any stack — and any
@@ -175,6 +175,22 @@ Theorem tree_iterator_well_bracketed : forall D anchor (ws : list (wsrc D)) fuel
   exists evs, titer D fuel (flat_map (stream_of D anchor) ws) = Some evs /\ balanced D 0 evs = true.
 Proof. exact walk_well_bracketed_lemma. Qed.
 Print Assumptions tree_iterator_well_bracketed.
+
+(* Well bracketed on EVERY item stream whose paths share one anchor (anchor ++ Normal components) —
+   sorted or not, repeated entries, any nodes — whenever the iterator is exhausted within the fuel. *)
+Theorem tree_iterator_well_bracketed_on_any_stream : forall D anchor, nonnormal anchor = true ->
+  forall (items : list (item D)) fuel evs, anchored D anchor items ->
+  titer D fuel items = Some evs -> balanced D 0 evs = true.
+Proof. exact any_stream_well_bracketed_lemma. Qed.
+Print Assumptions tree_iterator_well_bracketed_on_any_stream.
+
+(* The common anchor is needed: after `/1`, an item with the relative path `2` makes the iterator
+   yield EndTree for ever (pop() fails, the path stays `/`); the backup then fails in TreeArchiver. *)
+Theorem tree_iterator_mixed_anchors_do_not_end :
+  titer D_ex 50 [{| i_path := [CRoot; CNormal 1]; i_node := d2; i_open := None |};
+                 {| i_path := [CNormal 2]; i_node := d5; i_open := None |}] = None.
+Proof. exact mixed_anchors_diverge. Qed.
+Print Assumptions tree_iterator_mixed_anchors_do_not_end.
 
 (* The item-by-item pipeline on the bracketed items of a forest does what `arch_list` does by
    structural recursion (whenever that does not panic): same Parent state, same nodes, stack empty. *)
